@@ -140,6 +140,12 @@ def close_exp(ctx, name, got, logwant, tol, tiny, sig, **detail):
 
 
 MIN_NORMAL = {"64b": 2.2250738585072014e-308, "32b": 1.1754943508222875e-38}
+# XLA (jax) and TensorFlow evaluate with flush-to-zero; numpy and pytorch keep subnormals on the pinned tree
+FTZ_BACKENDS = ("jax", "tensorflow")
+
+
+def _process_flushes_denormals():
+    return 2.0 * 1e-310 == 0.0
 
 
 def run_case(case, ctx):
@@ -177,7 +183,7 @@ def run_case(case, ctx):
                 if 0 < n[i] < MIN_NORMAL[prec]:
                     tot_terms = float("inf")
                     continue  # denormal count: flush-to-zero platforms treat it as 0
-                if 0 < lam[i] < MIN_NORMAL[prec]:
+                if 0 < lam[i] < MIN_NORMAL[prec] and be in FTZ_BACKENDS:
                     want0 = 0.0 if n[i] == 0 else -math.inf
                     if lp[i] == want0 and p[i] == (1.0 if n[i] == 0 else 0.0):
                         ctx.label("denormal_rate_flushed_to_zero")
@@ -249,6 +255,7 @@ def run_case(case, ctx):
                 cond = (abs(x[i]) + abs(mu[i])) / sg[i]  # rounding of x - mu, in units of z
                 w = float(want)
                 if z < 0:
+                    # results below the smallest normal number are not required (scipy's ndtr underflows to 0)
                     tol = K * eps * (1 + z * z + cond * abs(z)) * w + MIN_NORMAL[prec]
                 else:
                     tol = K * eps * (1 + cond * math.exp(-z * z / 2))
@@ -259,4 +266,14 @@ def run_case(case, ctx):
         if set(classes) - {"bulk"}:
             ctx.nontrivial([func, be, prec, sorted(set(classes)), case["args"]])
     finally:
+        if _process_flushes_denormals():
+            # the backend switched the whole thread to flush-to-zero mode (numpy and everything else in the
+            # process are affected from now on): report it and restore IEEE behaviour for the generator
+            ctx.fail(f"C04/{be}/process_left_in_flush_to_zero_mode")
+            try:
+                import torch
+
+                torch.set_flush_denormal(False)
+            except Exception:  # noqa: BLE001
+                pass
         backends.reset()
